@@ -339,3 +339,55 @@ for _w in ("_iter_level_rtl", "_iter_zigzag", "_iter_zigzag_rtl"):
         """one-line delegations to _iter_level(revert=, toggle=): executed in place"""
         c.param("self", "node")
         c.inline = True
+
+
+# ------------------------------------------------------------------ calc_height: a nested recursive function with a `nonlocal` accumulator
+def _max(a, b):
+    return If(a >= b, a, b)
+
+
+@contract(NQ + "calc_height.<locals>._ch", props=("C10",))
+def _(c):
+    """_ch(n, h): visits the branch below n at depth h and raises the captured `height` to h + Ht(n) if that is larger
+    (Ht: longest downward path, logic.height_spec).  The loop variable shadows the parameter `n`; clauses speak
+    about the entry value x.a.n.  Termination of the recursion is not proved (no measure that is bounded without Ht >= 0)."""
+    c.param("n", "node").param("h", "int")
+    c.captures = {"height": ("int", "inout")}
+    c.families = ("plain", "typed")
+    c.result_tag = "none"
+    c.pure()
+    T = lambda x: x.h0._tree(x.a.n)  # noqa: E731
+    c.requires("wf(tree of n), n in P", lambda x: And(wf(x.h0, T(x)), x.h0.inP(T(x), x.a.n)))
+
+    def post(x):
+        Ht, _ = L.height_spec(x.h0)
+        return x.a.height__out == _max(x.a.height__in, x.a.h + Ht(x.a.n))
+
+    c.ensures("height' == max(height, h + Ht(n))", post)
+
+    def inv(x):
+        _, HtL = L.height_spec(x.h0)
+        return x.v.height == If(x.k == 0, x.a.height__in, _max(x.a.height__in, x.a.h + HtL(x.a.n, x.k)))
+
+    c.loop(1).invariant = inv
+    c.loop(1).modifies = ()
+
+
+@contract(NQ + "calc_height", props=("C10",))
+def _(c):
+    c.param("self", "node")
+    c.families = ("plain", "typed")
+    c.result_tag = "int"
+    c.pure()
+    c.requires("wf", lambda x: And(wf0(x), self_in_P(x)))
+    c.ensures("result == max(0, Ht(self)): the longest downward path (0 for leaves)", lambda x: x.r == _max(0, L.height_spec(x.h0)[0](x.a.self)))
+
+
+@contract("nutree.tree.Tree.calc_height", props=("C10",))
+def _(c):
+    c.param("self", "tree")
+    c.families = ("plain", "typed")
+    c.result_tag = "int"
+    c.pure()
+    c.requires("wf", lambda x: wf0(x))
+    c.ensures("result == max(0, Ht(root)): the maximum depth of all nodes", lambda x: x.r == _max(0, L.height_spec(x.h0)[0](x.h0._root(x.a.self))))
